@@ -5,6 +5,8 @@ package main
 // over the full byte alphabet for the decoders (exhaustive up to length 2, length 3 and longer over
 // reduced alphabets, encodings with one mutation, random text).
 
+import "strings"
+
 var (
 	encOps     = []string{"b32enc", "b32encNoPad", "b64enc"}
 	decOps     = []string{"b32dec", "b32decNoPad", "b64dec"}
@@ -90,6 +92,33 @@ func genBaseDecoders(g *G) {
 	for a := 0; a < 256; a++ {
 		for b := 0; b < 256; b++ {
 			g.emitAll(decOps, hx([]byte{byte(a), byte(b)}))
+		}
+	}
+
+	// texts whose RAW length (line breaks included) is a "nice" one — 8, 16, 52 (a .b32.i2p address), 56, 64 — while
+	// the alphabet characters that remain after the line breaks are skipped form an impossible final group (1, 3 or 6
+	// characters of a base32 group; 1 of a base64 group): the group structure is judged on the characters, not on
+	// the raw length
+	g.in("base-dec-nice-raw-length")
+	for _, L := range []int{8, 16, 52, 56, 64} {
+		for _, k := range []int{1, 2, 3, 5, 6} {
+			if k >= L {
+				continue
+			}
+			body := []byte(strings.Repeat("abcdefghijklmnopqrstuvwxyz234567", 3))[:L-k]
+			for _, shape := range []int{0, 1, 2} {
+				var txt []byte
+				switch shape {
+				case 0: // breaks at the end
+					txt = cat(body, []byte(strings.Repeat("\n", k)))
+				case 1: // breaks in the middle
+					txt = cat(body[:len(body)/2], []byte(strings.Repeat("\r\n", k))[:k], body[len(body)/2:])
+				default: // breaks at the start
+					txt = cat([]byte(strings.Repeat("\n", k)), body)
+				}
+				g.emitAll(decOps, hx(txt))
+				g.emitAll(safeDecOps, hx(txt))
+			}
 		}
 	}
 
